@@ -648,6 +648,16 @@ func genC20(w *bufio.Writer, tier string, rng *rand.Rand) {
 		}
 		add("s", fmt.Sprintf("[s,%s,%s,0]", fmtFs(tiedUnsorted(rng, wsn, positive)), fmtFs(wts)))
 		add("s", fmt.Sprintf("[s,alias,%d,0]", rng.Intn(3))) // shares storage with a slice object
+		{ // ascending, weighted (zeros among the weights), marked Sorted: queries work on the caller's own slices
+			xs := tiedUnsorted(rng, wsn, positive)
+			sort.Float64s(xs)
+			w2 := make([]float64, wsn)
+			for i := range w2 {
+				w2[i] = float64(rng.Intn(4))
+			}
+			w2[rng.Intn(wsn)] = 2
+			add("s", fmt.Sprintf("[s,%s,%s,1]", fmtFs(xs), fmtFs(w2)))
+		}
 		n := 3 + rng.Intn(8)
 		g := randGraph(rng, n, 1.5, true, true)
 		if len(g[n-1]) == 0 {
